@@ -63,8 +63,8 @@ CHECKS.update({
    "Trusted: driver stub; reference uses snap.SnapPolygon of the same tree (C13 checks plumbing, not snapping).", "3/C13"),
 })
 CHECKS.update({
- "C03": ("snapmc", "exhaustive enumeration of (accepted built-in set, id z, deepest id z' requested together, anchor, flags, probe polygon) through the real snap.SnapPolygon; every returned ordinate compared with the ideal pixel centre computed in exact rationals from the document; plus synthetic grids exercising tile width / corner / origin arithmetic",
-   "7 accepted sets x all (z, z') pairs x 9 anchors (min edge, middle, max edge per axis) x 4 flag combinations x probe shapes; tolerance = deviation reported by DeviationStats + 2e-10 + 1 ulp; synthetic grids with tile width 1/4/256, both corners of origin, non-zero origin, all 15 id subsets, exact equality.",
+ "C03": ("snapmc", "exhaustive enumeration of (accepted built-in set, id z, deepest id z' requested together, anchor, flags, probe polygon) through the real snap.SnapPolygon; every returned ordinate compared with the ideal pixel centre computed in exact rationals from the document; plus synthetic grids exercising tile width / corner / origin / axis-order arithmetic",
+   "7 accepted sets x all (z, z') pairs x 9 anchors (min edge, middle, max edge per axis) x 4 flag combinations x probe shapes; tolerance = deviation reported by DeviationStats + 2e-10 + 1 ulp; synthetic grids with tile width 1/4/256, both corners of origin, three origins (one not aligned to any pixel grid), x/y and y/x ordered reference systems, all 15 id subsets, exact equality.",
    "Trusted: exact rational arithmetic on the documents' decimals, hand-checked axis order of the two northing-first sets. Float behaviour away from the 9 anchors per grid is outside.", "3/C03"),
 })
 PENDING = {}
